@@ -242,7 +242,7 @@ def run(r):
               "the box of fast-path shapes (c03 shapes): 22 constructs with a body (set-block plain / filtered, macro, macro with keyword call, caller(), top level, if, else, for, for-else, with, filter-blocks, printed macro, call blocks plain / literal keyword / parameter, "
               "failing if / elif / for / loop-filter / with heads) x 11 body shapes (empty, template data only, one character, one literal, one variable, one safe variable, data+expression, one nested if / for, one assignment, nested set-block) "
               "x 8 ways of looking at the captured value, each as a plain case, under esc-ident / esc-off ({% autoescape false %} in an HTML-escaping environment: absolute) and as twin pairs under the four other modes, and the value-producing ones with the observation as the tail of the child / include / render_block / from / import entry forms; "
-              "generator axes added: bodies may be empty, loop filters read the ENCLOSING loop's loop.*, default filter applied to none, idiom self-rebind (a macro / call-block body re-binds an enclosing name from its own old value: set v = f(v), with v = f(v), with a = .., v = f(a, v), for v in [v, ..], set-block v printing v, tuple assignment, guarded set, loop over v filtered by v)")
+              "generator axes added: bodies may be empty, loop filters read the ENCLOSING loop's loop.*, default filter applied to none, idiom self-rebind (a macro / call-block body re-binds an enclosing name from its own old value: set v = f(v), with v = f(v), with a = .., v = f(a, v), for v in [v, ..], set-block v printing v, tuple assignment, guarded set, loop over v filtered by v), idiom read-after-scope (inside a macro / call-block body every binding construct - loop target, unpacking target, name set in a loop / with body, with binding, nested-macro / call-block parameter - binds an enclosing name that is read AFTER the binding's scope ended: in the loop's else branch with empty / filtered iterables, after endfor / endwith), idiom ctl-out-of-scope (break / continue out of set-block / filter-block / with inside a loop)")
     r.assumptions = [
         "programs deeper than 6 / larger than 40 nodes behave compositionally like the sampled ones (proved for the reference interpreter's laws, sampled for the engine)",
         "argument-binding box: at most two parameters; splats are dict / list literals (not map values of the render context); calls from Rust go through State::call_macro",
